@@ -55,11 +55,25 @@ theorem Q_TAGS (isWord : Char → Bool) (s : Str) :
   exact ⟨by simpa using tagSegments_concat s.length s [], rfl⟩
 
 /-- Q_PARA: a quote pair whose content contains a paragraph break is left as it is. -/
-theorem Q_PARA (q o cl : Char) (cs content rest : Str) (k : Nat)
-    (h1 : scanContent q o cl cs = some (content, rest)) (h2 : suffixLen rest = some k)
+theorem Q_PARA (q o cl : Char) (cs content rest : Str)
+    (h1 : scanContent q o cl cs = some (content, rest)) (h2 : suffixOk rest = true)
     (hp : hasParaBreak content = true) :
-    quoteSpan q o cl cs = some (q :: content ++ q :: rest.take k, rest.drop k) := by
+    quoteSpan q o cl cs = some (q :: content ++ [q], rest) := by
   simp [quoteSpan, h1, h2, hp]
+
+/-- Q_LOOKAHEAD: the character after the closing quote is never consumed: the rest to scan starts
+right after the closing quote, so the same character can open the next quoted string. -/
+theorem Q_LOOKAHEAD (q o cl : Char) (cs out rest : Str) (h : quoteSpan q o cl cs = some (out, rest)) :
+    ∃ content, scanContent q o cl cs = some (content, rest) ∧ out.length = content.length + 2 := by
+  unfold quoteSpan at h
+  cases hs : scanContent q o cl cs with
+  | none => simp [hs] at h
+  | some p =>
+    obtain ⟨content, r⟩ := p
+    simp only [hs] at h
+    split at h
+    · split at h <;> (simp at h; obtain ⟨rfl, rfl⟩ := h; exact ⟨content, rfl, by simp⟩)
+    · simp at h
 
 def asciiWord (c : Char) : Bool := c.isAlphanum || c == '_'
 
@@ -69,11 +83,14 @@ example : smartQuotes asciiWord "He said \"yes\" and it's 'fine'.".toList
 example : smartQuotes asciiWord "a {% t k=\"v\" %} \"b\"".toList
     = "a {% t k=\"v\" %} “b”".toList := by decide
 
-/-- Idempotence is FALSE of the code and of its model (this matters for C02): the pair pattern
-consumes its one-character suffix, so of two adjacent quoted strings only the first is converted
-per pass. -/
+/-- adjacent quoted strings are all converted in one pass (the defect fixed in flowmark fafdec6) -/
+example : smartQuotes asciiWord "He said \"yes\" \"no\" and 'a'—'b'".toList
+    = "He said “yes” “no” and ‘a’—‘b’".toList := by decide
+
+/-- Idempotence is still FALSE of the code and of its model (this matters for C02): a single-quoted
+span that overlaps a double-quoted one hides the latter from the first pass only. -/
 theorem Q_IDEM_false :
-    smartQuotes asciiWord (smartQuotes asciiWord "He said \"yes\" \"no\"".toList)
-      ≠ smartQuotes asciiWord "He said \"yes\" \"no\"".toList := by decide
+    smartQuotes asciiWord (smartQuotes asciiWord "'a \"b' c\"".toList)
+      ≠ smartQuotes asciiWord "'a \"b' c\"".toList := by decide
 
 end FM.C08
